@@ -123,6 +123,9 @@ type Cluster struct {
 	// HoldOptions parks the replies to OPTIONS on started connections (heartbeats) until ReleaseOptions
 	HoldOptions bool
 	heldOpts    []*held
+	// HoldStartup parks the replies to STARTUP (new backend connections hang in their handshake)
+	HoldStartup  bool
+	heldStartups []*held
 }
 
 type Host struct {
@@ -136,7 +139,8 @@ type Host struct {
 	up       bool
 	Accepts  []time.Time // arrival times of connection attempts (C16 backoff)
 	HostID   primitive.UUID
-	DC       string // data center of this host ("" = the cluster's)
+	DC       string                    // data center of this host ("" = the cluster's)
+	MaxVer   primitive.ProtocolVersion // this host's own maximum version (0 = the cluster's)
 }
 
 type Conn struct {
@@ -380,6 +384,22 @@ func (c *Cluster) ReleaseOptions() int {
 		h.conn.replyMsg(h.version, h.stream, &message.Supported{Options: map[string][]string{"CQL_VERSION": {c.CQLVersion}, "COMPRESSION": {"lz4", "snappy"}}}, nil)
 	}
 	return len(hs)
+}
+
+// SetHoldStartup makes new backend connections hang in their handshake until ReleaseStartups.
+func (c *Cluster) SetHoldStartup(b bool) { c.mu.Lock(); c.HoldStartup = b; c.mu.Unlock() }
+
+func (c *Cluster) HeldStartups() int { c.mu.Lock(); defer c.mu.Unlock(); return len(c.heldStartups) }
+
+func (c *Cluster) ReleaseStartups() {
+	c.mu.Lock()
+	hs := c.heldStartups
+	c.heldStartups = nil
+	c.HoldStartup = false
+	c.mu.Unlock()
+	for _, h := range hs {
+		h.conn.replyMsg(h.version, h.stream, &message.Ready{}, nil)
+	}
 }
 
 func (c *Cluster) SetHoldOptions(b bool) { c.mu.Lock(); c.HoldOptions = b; c.mu.Unlock() }
@@ -798,7 +818,11 @@ func (c *Conn) handle(f *wire.Frame) bool {
 		c.replyMsg(cl.respVersion(v), f.Stream, &message.ProtocolError{ErrorMessage: "fakecass: wrong frame direction"}, nil)
 		return true
 	}
-	if v > cl.MaxVersion || v < primitive.ProtocolVersion3 || !v.IsSupported() {
+	maxV := cl.MaxVersion
+	if c.h.MaxVer != 0 {
+		maxV = c.h.MaxVer
+	}
+	if v > maxV || v < primitive.ProtocolVersion3 || !v.IsSupported() {
 		c.replyMsg(cl.respVersion(v), f.Stream, &message.ProtocolError{ErrorMessage: fmt.Sprintf("Invalid or unsupported protocol version (%d); supported versions are (3/v3, 4/v4 ...)", int(v))}, nil)
 		return true
 	}
@@ -856,6 +880,12 @@ func (c *Conn) handle(f *wire.Frame) bool {
 		}
 		cl.mu.Lock()
 		c.Version, c.Started = v, true
+		if cl.HoldStartup {
+			cl.heldStartups = append(cl.heldStartups, &held{conn: c, stream: f.Stream, version: v})
+			cl.cond.Broadcast()
+			cl.mu.Unlock()
+			return true
+		}
 		cl.mu.Unlock()
 		c.replyMsg(v, f.Stream, &message.Ready{}, nil)
 		return true
